@@ -117,20 +117,32 @@ def analyse_scripted(ops, impl, model, spec):
             res['problems'].append(('impl-model-differ', 'script=%s | impl=%s | model=%s' % (o, im, mo), [o]))
     return res
 
-def run_scripted_shard(binary, wd, seed, n, replay=None):
+def exec_scripted(binary, wd, seed, n, replay=None):
+    """run the scripted harness only (no Lean side needed yet)"""
     os.makedirs(wd, exist_ok=True)
-    ops, impl, model, spec = (os.path.join(wd, x) for x in ('ops', 'impl', 'model', 'spec'))
+    ops, impl = os.path.join(wd, 'ops'), os.path.join(wd, 'impl')
     cmd = [binary, '-mode', 'scripted', '-seed', str(seed), '-n', str(n), '-ops-out', ops, '-impl-out', impl]
     if replay:
         cmd += ['-replay', replay]
-    subprocess.run(cmd, check=True, timeout=1800)
+    p = subprocess.run(cmd, timeout=1800, stdout=subprocess.PIPE, stderr=subprocess.STDOUT, text=True)
+    if p.returncode != 0:
+        open(os.path.join(wd, 'harness.log'), 'w').write(p.stdout)
+        raise RuntimeError('scripted harness exited with %d (seed %s): %s' % (p.returncode, seed, p.stdout[-3000:]))
+    return wd
+
+def judge_scripted(wd):
+    """replay the script lines on the model, judge the implementation lines with the spec oracle, compare"""
+    ops, impl, model, spec = (os.path.join(wd, x) for x in ('ops', 'impl', 'model', 'spec'))
     open(model, 'w').write('\n'.join(driver(['dial'], ops)) + '\n')
     open(spec, 'w').write('\n'.join(driver(['dialspec', impl])) + '\n')
     return analyse_scripted(read(ops), read(impl), read(model), read(spec))
 
-def run_scripted(binary, wd, seed, shards, n):
+def run_scripted_shard(binary, wd, seed, n, replay=None):
+    return judge_scripted(exec_scripted(binary, wd, seed, n, replay))
+
+def exec_scripted_shards(binary, wd, seed, shards, n):
     with ThreadPoolExecutor(max_workers=min(16, shards)) as ex:
-        futs = [ex.submit(run_scripted_shard, binary, os.path.join(wd, 's%d' % i), seed * 1000 + i, n) for i in range(shards)]
+        futs = [ex.submit(exec_scripted, binary, os.path.join(wd, 's%d' % i), seed * 1000 + i, n) for i in range(shards)]
         return [f.result() for f in futs]
 
 # ------------------------------------------------------------------ real sockets
@@ -200,14 +212,19 @@ def analyse_real(path, spec_lines, admit, slack_us):
             res['problems'].append(('model-does-not-admit', 'class %s ctx=%s: observed "%s", model admits %s: %s' % (cls, ctx, outcome, sorted(adm), l), [req]))
     return res
 
-def run_real(binary, wd, seed, tier, replay=None, loops=1):
+def exec_real(binary, wd, seed, tier, replay=None, loops=1):
     os.makedirs(wd, exist_ok=True)
     out = os.path.join(wd, 'real.out')
     sockdir = os.path.join(wd, 'sock'); os.makedirs(sockdir, exist_ok=True)
     cmd = [binary, '-mode', 'real', '-seed', str(seed), '-tier', tier, '-out', out, '-dir', sockdir, '-loops', str(loops)]
     if replay:
         cmd += ['-replay', replay]
-    subprocess.run(cmd, check=True, timeout=1800)
-    data = os.path.join(wd, 'real.data')
+    p = subprocess.run(cmd, timeout=1800, stdout=subprocess.PIPE, stderr=subprocess.STDOUT, text=True)
+    if p.returncode != 0:
+        raise RuntimeError('real-socket harness exited with %d (seed %s): %s' % (p.returncode, seed, p.stdout[-3000:]))
+    return out
+
+def judge_real(out, admit, slack_us):
+    data = out + '.data'
     open(data, 'w').write('\n'.join(l for l in read(out) if not l.startswith('#')) + '\n')
-    return out, driver(['dialspec', data])
+    return analyse_real(out, driver(['dialspec', data]), admit, slack_us)
